@@ -2268,3 +2268,29 @@ def c06_directed(ctx):
 
 REGISTRY["C03"].parts[0].directed = c03_directed
 REGISTRY["C06"].parts[0].directed = c06_directed
+
+
+def c12_directed(ctx):
+    """Well-formed entries under an operation type that is INVALID or a number the enumeration does not define, from the
+    elected primary, for every entry kind; afterwards the entries they name must be absent and deletion protection
+    unchanged (the group they point at can be deleted)."""
+    out = []
+    for base in (0, 1):   # even ids: an undefined number, odd ids: INVALID
+        w = [{"a": "sreset", "nis": ["DEFAULT", "vrf1"], "fwd": True}, {"a": "open", "s": "s1"},
+             _msg("s1", {"k": "params", "red": "SINGLE_PRIMARY", "per": "PRESERVE", "ack": "RIB"}), _msg("s1", {"k": "elec", "id": [0, 1]}),
+             _msg("s1", {"k": "ops", "ops": [_op(101, "DEFAULT", "ADD", "nh", 1), _op(103, "DEFAULT", "ADD", "nhg", 1, nhs=(1,))]})]
+        oid = 200 + base
+        for kind, key, kw in (("nh", 2, {}), ("nhg", 2, {"nhs": (1,)}), ("v4", "k1", {"g": 1}), ("v6", "k1", {"g": 1}), ("mpls", "k1", {"g": 1})):
+            o = _op(oid, "DEFAULT", "ADD", kind, key, **kw)
+            o["bad"] = "badOpType"
+            w.append(_msg("s1", {"k": "ops", "ops": [o]}))
+            oid += 2
+        w += [{"a": "get", "g": {"ni": "*", "aft": "ALL"}},
+              _msg("s1", {"k": "ops", "ops": [_op(301, "DEFAULT", "DELETE", "nhg", 1)]}),
+              _msg("s1", {"k": "ops", "ops": [_op(303, "DEFAULT", "DELETE", "nh", 1)]}),
+              {"a": "get", "g": {"ni": "*", "aft": "ALL"}}]
+        out.append(json.dumps(w))
+    return out
+
+
+REGISTRY["C12"].parts[1].directed = c12_directed
